@@ -368,6 +368,14 @@ func ruleContextKeys(c *chk.Ctx, d *dispatchModel) {
 		if ok {
 			_, fv, isTask := taskFieldLoad(c, assign.Common().Args[1])
 			ok = isTask && fv == c.M.TCtx
+			if !ok {
+				// or the very value that is stored into the task's context
+				c.P.ExtInstrs(d.checkAssign, func(ins ssa.Instruction) {
+					if st, isSt := ins.(*ssa.Store); isSt && chk.IsField(st.Addr, c.M.TCtx) && ir.SameValue(st.Val, assign.Common().Args[1]) {
+						ok = true
+					}
+				})
+			}
 		}
 		pos := d.checkAssign.Pos()
 		if assign != nil {
